@@ -21,7 +21,9 @@ one pulsetime) and the extracted model of that back end run on the SAME history:
 performed on that store so far (earlier loops as the concrete insert / replace_last calls they made), its stream =
 this phase's stream."""
 import os
+import shutil
 
+from . import c07_fault
 from . import store_hist as sh
 from .evutil import BASE, pulse_us
 
@@ -46,59 +48,242 @@ def delete(b):
     return [2, b]
 
 
+STORE_KIND = {"L": "legacy {} store at its default path in a data directory of the case's own (XDG_DATA_HOME)",
+              "M": "{} store constructed with its default path in that directory (the library's migration imports the legacy file)"}
+ATTEMPTS = 4           # a round of the loop is repeated at most this often (the generators' faults last 1-2 engine calls)
+
+
+def store_backend(backend, s):
+    """back end of a storage object of a case: X = the one under test, X2 / Y = the partner, L = a LEGACY peewee store at
+    its default path in a data directory of the case's own, M = the sqlite store at ITS default path in that directory,
+    constructed at its first phase: the library's own migration imports L"""
+    if s == "X":
+        return backend
+    if s == "L":
+        return "peewee"
+    if s == "M":
+        return "sqlite"
+    return partner(backend, s == "X2")
+
+
+def _open_store(be, tmpdir, idx, kind, opts):
+    if kind == "L":
+        from aw_datastore.storages import PeeweeStorage
+        return PeeweeStorage(testing=True)
+    if kind == "M":
+        from aw_datastore.storages import SqliteStorage
+        return SqliteStorage(testing=True)
+    if be == "sqlite" and opts.get("lazy") is False:        # every write commits
+        from aw_datastore.storages import SqliteStorage
+        return SqliteStorage(testing=True, filepath=os.path.join(tmpdir, f"s{idx}.db"), enable_lazy_commit=False)
+    return sh.open_storage(be, tmpdir, idx)
+
+
+def migration_ops(legacy):
+    """the calls aw_datastore.migration makes on the new store for this legacy store, as wire ops: per bucket, in the
+    order the legacy store lists them, create_bucket and ONE insert_many of its events as it returns them (newest
+    first), ids dropped"""
+    ops = []
+    for bid, m in legacy.buckets().items():
+        b = sh.n_of(bid)
+        ops.append([0, b, sh.meta_w(m)])
+        ops.append([6, b, [[[]] + sh.ev_w(e)[1:] for e in legacy.get_events(bid, -1)]])
+    return ops
+
+
+def quiet_tail(ph):
+    """index of the first operation of the phase's trailing run of single inserts when the phase asks for "quiet_ops" (no
+    dump, hence no COMMIT, between them and the stream: they are pending when the first round starts), else None"""
+    if not ph.get("quiet_ops"):
+        return None
+    q = len(ph["ops"])
+    while q > 0 and ph["ops"][q - 1][0] == 5:
+        q -= 1
+    return q if q < len(ph["ops"]) else None
+
+
+def _effect(f, r_raised, eng, wrote):
+    """what a step whose engine call failed left behind, by the engine's rules (a failed COMMIT keeps the transaction
+    open; a failed statement writes nothing): "full" (every statement of the step ran: the failed call was its closing
+    COMMIT), "none" (the failed call was its first statement, or a COMMIT before it), "partial" otherwise"""
+    kind, index, _ = eng.position
+    if kind == "commit":
+        return "full" if wrote else "none"
+    return "none" if wrote <= 1 else "partial"
+
+
 def run_lifecycle(backend, case, tmpdir, n):
     """-> {"stores": [backend names], "phases": [record per phase]}; record = {"st", "backend", "steps" (dense) |
     "first_last" (sparse), "branches", "before", "final", "performed": concrete ops of the loop, "other_store_changed"}"""
     from aw_datastore import Datastore
     from aw_transform.heartbeats import heartbeat_merge
-    names = [backend if s == "X" else partner(backend, s == "X2") for s in case["stores"]]
+    names = [store_backend(backend, s) for s in case["stores"]]
     univ = case["univ"]
-    opened = []
+    opts = case.get("store_opts", {})
+    faulty = any(ph.get("faults") for ph in case["phases"])
+    opened = {}
+    closed = set()
+    xdg_saved, xdg_dir = None, None
+    if any(s in ("L", "M") for s in case["stores"]):
+        xdg_saved = os.environ.get("XDG_DATA_HOME")
+        xdg_dir = os.path.join(tmpdir, f"xdg{n}")
+        os.makedirs(xdg_dir, exist_ok=True)
+        os.environ["XDG_DATA_HOME"] = xdg_dir
+
+    def open_(i):
+        be = names[i]
+        st = _open_store(be, tmpdir, 10 * n + i, case["stores"][i], opts)
+        ds = Datastore(lambda testing, _st=st: _st, testing=True)
+        if be == "sqlite" and opts.get("journal") == "delete":
+            # the mode a store has where WAL is not available: a reader's shared lock makes its COMMIT fail (mechanism "lock")
+            st.conn.execute("PRAGMA journal_mode=DELETE").fetchall()
+            st.conn.execute("PRAGMA busy_timeout = 20")
+        eng, undo = c07_fault.install(be, st) if faulty else (None, lambda: None)
+        opened[i] = (be, st, ds, sh.ViaDatastore(ds), eng, undo)
+
+    def close_(i):
+        be, st, _, _, _, undo = opened[i]
+        undo()
+        closed.add(i)
+        sh.close_storage(be, st, tmpdir, 10 * n + i)
     try:
-        for i, be in enumerate(names):
-            st = sh.open_storage(be, tmpdir, 10 * n + i)
-            ds = Datastore(lambda testing, _st=st: _st, testing=True)
-            opened.append((be, st, ds, sh.ViaDatastore(ds)))
+        for i, s in enumerate(case["stores"]):
+            if s != "M":
+                open_(i)
         out = []
         for ph in case["phases"]:
-            be, st, ds, facade = opened[ph["st"]]
-            others = [(j, o[1]) for j, o in enumerate(opened) if j != ph["st"]]
+            extra = {}
+            if ph["st"] not in opened:
+                # the sqlite store of the data directory is constructed now: the legacy store is closed, what the
+                # migration will do is read off it first (for the model: the new store's history starts with these calls)
+                li = case["stores"].index("L")
+                extra["migration_ops"] = migration_ops(opened[li][1])
+                close_(li)
+                open_(ph["st"])
+                import aw_datastore.storages.peewee as pw_mod
+                if not pw_mod._db.is_closed():
+                    pw_mod._db.close()              # the PeeweeStorage the migration constructed
+                extra["migrated_views"] = sh.dump(opened[ph["st"]][1], univ)
+            be, st, ds, facade, eng, _ = opened[ph["st"]]
+            others = [(j, o[1]) for j, o in opened.items() if j != ph["st"] and j not in closed]
             other_before = [sh.dump(o, univ) for _, o in others]
             target = facade if ph["via"] == "datastore" else st
-            op_results = [sh.apply_op(target, op) for op in ph["ops"]]
+            faults = ph.get("faults") or []
+            hb_faults = {f["ts"]: f for f in faults if f["on"] == "hb"} if eng else {}
+            quiet_from = quiet_tail(ph)
+            before_ops = None
+            op_results, ops_effective, model_void = [], [], False
+            for j, op in enumerate(ph["ops"]):
+                if j == quiet_from:
+                    before_ops = sh.dump(st, univ)      # the last dump (= COMMIT) before the stream ends
+                f = next((f for f in faults if f["on"] == "op" and f["op"] == op), None) if eng else None
+                if f is None:
+                    r = sh.apply_op(target, op)
+                    ops_effective.append(op)
+                    op_results.append(r)
+                    continue
+                eng.arm(f["kind"], f["nth"], f.get("mech", "wrap"), f.get("times", 1))
+                r = sh.apply_op(target, op)
+                wrote = eng.n["execute"]
+                fired = eng.disarm()
+                if r[0] == 0 or not fired:
+                    ops_effective.append(op)
+                else:
+                    # the caller survives the exception and goes on (or issues the call once more)
+                    eff = _effect(f, True, eng, wrote)
+                    if eff == "full":
+                        ops_effective.append(op)
+                    elif eff == "partial":
+                        model_void = True           # the store models have no step for a half-applied call
+                    if f.get("then") == "repeat":
+                        r2 = sh.apply_op(target, op)
+                        if r2[0] == 0:
+                            ops_effective.append(op)
+                        r = [r, r2]
+                op_results.append(r)
             try:
                 bucket = ds[sh.s_of(ph["b"])]
-            except KeyError:        # only in a shrinking candidate that dropped the bucket's creation: not a lifecycle
-                return {"stores": names, "phases": out, "malformed": "phase feeds a bucket that does not exist"}
-            steps, branches, befores, performed = [], [], [], []
-            views = sh.dump(st, univ)
+            except KeyError:
+                if not faulty:  # only in a shrinking candidate that dropped the bucket's creation: not a lifecycle
+                    return {"stores": names, "phases": out, "malformed": "phase feeds a bucket that does not exist"}
+                bucket = None
+            steps, branches, befores, performed, reads = [], [], [], [], []
+            accepted, maybe, outcomes, tries_all, recreated = [], [], [], [], False
+            views = before_ops if before_ops is not None else sh.dump(st, univ)
             first = views
-            for w in ph["stream"]:
+            for w in (ph["stream"] if bucket is not None else []):
+                f = hb_faults.get(w[1])
+                if f:
+                    eng.arm(f["kind"], f["nth"], f.get("mech", "wrap"), f.get("times", 1))
                 hb = sh.mk_ev(w)
-                branch = "raised"
-                try:
-                    last = bucket.get(limit=1)
-                    merged = heartbeat_merge(last[0], hb, ph["p"]) if len(last) > 0 else None
-                    if merged is not None:
-                        branch, code, ev = "merge", sh.OPCODE["replace_last"], merged
-                        wire_ev = sh.ev_w(merged)
-                        r = bucket.replace_last(merged)
-                    else:
-                        branch, code, ev = ("refused" if len(last) > 0 else "first"), sh.OPCODE["insert"], hb
-                        wire_ev = sh.ev_w(hb)
-                        r = bucket.insert(hb)
-                    performed.append([code, ph["b"], wire_ev])
-                    res = [0, sh.canon_out(code, r)]
-                except Exception as ex:  # noqa: BLE001 -- the error class is the observation
-                    res = [1, sh.ERR.get(type(ex).__name__, 10)]
+                branch, res, outcome, tries, read = "raised", None, None, [], None
+                for _attempt in range(ATTEMPTS):
+                    if not (f and f.get("same_object")):
+                        hb = sh.mk_ev(w)            # (else: the caller hands the very same Event object in again)
+                    stage = None
+                    fired0 = eng.fired if eng else 0
+                    wrote0 = eng.n["execute"] if eng else 0
+                    try:
+                        last = bucket.get(limit=1)
+                        read = sh.ev_w(last[0]) if len(last) > 0 else None
+                        merged = heartbeat_merge(last[0], hb, ph["p"]) if len(last) > 0 else None
+                        if merged is not None:
+                            branch, code = "merge", sh.OPCODE["replace_last"]
+                            stage = [code, ph["b"], sh.ev_w(merged)]
+                            r = bucket.replace_last(merged)
+                        else:
+                            branch, code = ("refused" if len(last) > 0 else "first"), sh.OPCODE["insert"]
+                            stage = [code, ph["b"], sh.ev_w(hb)]
+                            r = bucket.insert(hb)
+                        performed.append(stage)
+                        res, outcome = [0, sh.canon_out(code, r)], "ok"
+                        break
+                    except Exception as ex:  # noqa: BLE001 -- the error class is the observation
+                        tries.append(type(ex).__name__)
+                        res = [1, sh.ERR.get(type(ex).__name__, 10)]
+                        if not (f and eng.fired > fired0):
+                            branch, outcome = "raised", "raised"         # nothing was injected here: the loop ends
+                            break
+                        eff = "none"
+                        if stage is not None:
+                            eff = _effect(f, True, eng, eng.n["execute"] - wrote0)
+                        if eff != "none":
+                            performed.append(stage)       # the write is in the open transaction: the next COMMIT keeps it
+                        if f["then"] == "skip":
+                            outcome, res = ("skipped-effect" if eff != "none" else "skipped"), [2, res[1]]
+                            break
+                        if f["then"] == "recreate":
+                            eng.disarm()                    # (the engine is available again before the caller cleans up)
+                            redo = [delete(ph["b"]), create(ph["b"])]
+                            for op in redo:
+                                sh.apply_op(target, op)
+                            performed += redo
+                            accepted, maybe, recreated = [], [], True
+                            try:
+                                bucket = ds[sh.s_of(ph["b"])]
+                            except KeyError:
+                                branch, outcome, res = "raised", "raised", [1, sh.ERR["KeyError"]]
+                                break
+                        outcome = "raised"              # (when every attempt fails)
+                if f:
+                    eng.disarm()
+                    if outcome == "raised" and len(tries) == ATTEMPTS:
+                        branch = "raised"
+                if outcome == "ok":
+                    accepted.append(w)
+                elif outcome == "skipped-effect":
+                    maybe.append(w)
+                outcomes.append(outcome)
+                tries_all.append(tries)
                 branches.append(branch)
+                reads.append(read if outcome == "ok" else None)
                 if ph["dense"]:
                     befores.append(views)
                     views = sh.dump(st, univ)
                     steps.append([res] + views)
                 else:
                     steps.append([res])
-                if res[0] != 0:
+                if res[0] == 1:
                     break
             last_views = sh.dump(st, univ)
             try:
@@ -106,13 +291,30 @@ def run_lifecycle(backend, case, tmpdir, n):
             except Exception as ex:  # noqa: BLE001
                 final = {"raised": type(ex).__name__}
             rec = {"st": ph["st"], "backend": be, "steps": steps, "branches": branches, "before": befores, "final": final,
-                   "performed": performed, "op_results": op_results, "first": first, "last": last_views,
+                   "performed": performed, "op_results": op_results, "first": first, "last": last_views, "reads": reads,
                    "other_store_changed": [j for (j, o), vb in zip(others, other_before) if sh.dump(o, univ) != vb]}
+            if faults:
+                rec.update(accepted=accepted, maybe=maybe, outcomes=outcomes, tries=tries_all, recreated=recreated,
+                           ops_effective=ops_effective, model_void=model_void)
+            rec.update(extra)
             out.append(rec)
         return {"stores": names, "phases": out}
     finally:
-        for i, (be, st, _, _) in enumerate(opened):
-            sh.close_storage(be, st, tmpdir, 10 * n + i)
+        for i in list(opened):
+            if i not in closed:
+                close_(i)
+        if xdg_dir is not None:
+            try:
+                import aw_datastore.storages.peewee as pw_mod
+                if not pw_mod._db.is_closed():
+                    pw_mod._db.close()
+            except Exception:  # noqa: BLE001
+                pass
+            if xdg_saved is None:
+                os.environ.pop("XDG_DATA_HOME", None)
+            else:
+                os.environ["XDG_DATA_HOME"] = xdg_saved
+            shutil.rmtree(xdg_dir, ignore_errors=True)
 
 
 # ---------------------------------------------------------------------------
@@ -259,12 +461,23 @@ def large_cases(rng, tier):
 # what was fed into a bucket since it was created (for the reduce clause) and the model's history
 
 
+def logical(case, st):
+    """the legacy store and the store that imports it hold the same buckets: one history"""
+    return "LM" if case["stores"][st] in ("L", "M") else st
+
+
 def well_formed(case):
     """buckets are created only when they do not exist, deleted / written / fed only when they do (what the generators
     produce; shrinking must stay inside, or a candidate fails for a reason of its own, e.g. create on a live bucket)"""
     alive = {}
+    seen_m = False
     for ph in case["phases"]:
-        a = alive.setdefault(ph["st"], set())
+        kind = case["stores"][ph["st"]]
+        if kind == "M":
+            seen_m = True
+        elif kind == "L" and seen_m:
+            return False                      # the legacy store is closed once it has been imported
+        a = alive.setdefault(logical(case, ph["st"]), set())
         for op in ph["ops"]:
             if op[0] == 0:
                 if op[1] in a:
@@ -281,22 +494,345 @@ def well_formed(case):
     return True
 
 
-def fed_and_history(case):
-    """per phase: (expected stream or None, in-domain?, pulsetime) of the fed bucket since its creation"""
-    fed = {}            # (store, bucket) -> {"p": p or "mixed", "stream": [...], "dirty": bool}
+def fed_and_history(case, res=None):
+    """per phase: None, or what the fed bucket must hold after the phase, as {"prefill": events written into the bucket
+    by insert / insert_many BEFORE anything was fed (distinct start instants, any id order), "stream": the heartbeats fed
+    since the bucket was created whose round returned normally (one pulsetime; with `res`, the run's records: a round
+    that raised and was skipped is not in it, a bucket the caller re-created after a fault starts anew), "maybe": the
+    skipped heartbeats whose write statement had already run when the closing COMMIT raised}"""
+    fed = {}            # (store, bucket) -> {"p", "prefill", "stream", "maybe", "dirty"}
     out = []
-    for ph in case["phases"]:
-        st = ph["st"]
+
+    def fresh(p):
+        return {"p": p, "prefill": [], "stream": [], "maybe": [], "dirty": False}
+    for k, ph in enumerate(case["phases"]):
+        rec = res["phases"][k] if res is not None and k < len(res.get("phases", [])) else None
+        st = logical(case, ph["st"])
         for op in ph["ops"]:
+            key = (st, op[1]) if len(op) > 1 else None
             if op[0] in (0, 2):
-                fed.pop((st, op[1]), None)
-            elif op[0] in (5, 6, 7, 8, 9) and (st, op[1]) in fed:
-                fed[(st, op[1])]["dirty"] = True
-            elif op[0] in (5, 6, 7, 8, 9):
-                fed[(st, op[1])] = {"p": None, "stream": [], "dirty": True}
-        f = fed.setdefault((st, ph["b"]), {"p": ph["p"], "stream": [], "dirty": False})
+                fed.pop(key, None)
+            elif op[0] in (5, 6):
+                f = fed.setdefault(key, fresh(None))
+                evs = [op[2]] if op[0] == 5 else op[2]
+                if f["stream"] or f["maybe"] or any(w[0] != [] for w in evs):
+                    f["dirty"] = True
+                f["prefill"] = f["prefill"] + [list(w) for w in evs]
+                if len({w[1] for w in f["prefill"]}) != len(f["prefill"]):
+                    f["dirty"] = True
+            elif op[0] in (7, 8, 9):
+                fed.setdefault(key, fresh(None))["dirty"] = True
+        f = fed.setdefault((st, ph["b"]), fresh(ph["p"]))
+        if f["p"] is None:
+            f["p"] = ph["p"]
         if f["p"] != ph["p"]:
             f["dirty"] = True
-        f["stream"] = f["stream"] + ph["stream"]
-        out.append(None if f["dirty"] else list(f["stream"]))
+        if rec is not None and "accepted" in rec:
+            if rec["recreated"]:
+                f = fed[(st, ph["b"])] = fresh(ph["p"])
+            f["stream"] = f["stream"] + rec["accepted"]
+            f["maybe"] = f["maybe"] + rec["maybe"]
+        else:
+            f["stream"] = f["stream"] + ph["stream"]
+        if f["prefill"] and f["stream"] and max(w[1] for w in f["prefill"]) >= f["stream"][0][1]:
+            f["dirty"] = True
+        out.append(None if f["dirty"] else {"prefill": list(f["prefill"]), "stream": list(f["stream"]), "maybe": list(f["maybe"])})
     return out
+
+
+# ---------------------------------------------------------------------------
+# round 5 (a): ENGINE FAULTS the caller survives (harness/c07_fault.py).  Fault phases run WITHOUT a dump between the
+# rounds (a dump reads through get_events, which commits on sqlite: the write of the previous round would never be
+# pending when the next round's COMMIT fails), and with an event written to ANOTHER bucket pending when the stream starts.
+
+FAULT_BACKENDS = ["sqlite", "peewee"]
+
+
+def hb_fault(w, kind, nth, mech, then, times=1, same_object=False):
+    f = {"on": "hb", "ts": w[1], "kind": kind, "nth": nth, "mech": mech, "then": then}
+    if times != 1:
+        f["times"] = times
+    if same_object:
+        f["same_object"] = True
+    return f
+
+
+def op_fault(op, kind, nth, mech, then):
+    return {"on": "op", "op": op, "kind": kind, "nth": nth, "mech": mech, "then": then}
+
+
+def fault_phase(st, ops, b, p, stream, faults, via="storage", quiet_ops=False):
+    ph = phase(st, ops, b, p, stream, via, dense=False)
+    ph["faults"] = faults
+    if quiet_ops:
+        ph["quiet_ops"] = True
+    return ph
+
+
+def fault_case(only, phases, lazy=True, univ=None, journal=None):
+    c = {"kind": "lifecycle-fault", "only": list(only), "stores": ["X"], "univ": univ or UNIV4, "phases": phases, "domain": True}
+    if not lazy:
+        c["store_opts"] = {"lazy": False}
+    if journal:
+        c.setdefault("store_opts", {})["journal"] = journal
+    return c
+
+
+def positions(be, lazy):
+    """the engine calls of one round of the loop: sqlite - the COMMIT of the limit-1 read, the INSERT / UPDATE, and (every
+    write commits) the COMMIT after it; peewee (autocommit) - the INSERT / UPDATE"""
+    if be == "peewee":
+        return [("execute", 0), ("execute", 1)]          # (a second write statement: none in the code as it is)
+    return [("commit", 0), ("execute", 0)] + ([("execute", 1)] if lazy else [("commit", 1)])
+
+
+def fault_boundary_cases():
+    out = []
+    pending_other = [5, O, [[], BASE + 300 * UNIT, UNIT, 4]]        # acknowledged, not yet committed when the stream starts
+    k = 0
+    for p, s in ((1, hb_stream(0, [1, 1, 2, 2, 1, 1, 3], gap=2, dur=1)),       # insert, merge, insert, merge, ...
+                 (5, hb_stream(0, [1, 1, 1, 2, 1, 2, 2], gap=3, dur=0))):
+        for be in FAULT_BACKENDS:
+            for lazy in ((True, False) if be == "sqlite" else (True,)):
+                for kind, nth in positions(be, lazy):
+                    for i, w in enumerate(s):
+                        for then in ("repeat", "skip", "recreate"):
+                            if (kind, nth) == ("execute", 1) and (then != "repeat" or i % 2):
+                                continue
+                            k += 1
+                            if then != "repeat" and (k + i) % 2:
+                                continue                      # (repeat: every position; the two variants: every other one)
+                            mech = ("wrap", "auth")[(k // 3) % 2] if then != "repeat" else ("wrap", "auth")[i % 2]
+                            times = 2 if (then == "repeat" and i == 3) else 1
+                            via = ("storage", "datastore")[k % 2]
+                            f = hb_fault(w, kind, nth, mech, then, times, same_object=(i == 4))
+                            out.append(fault_case([be], [fault_phase(0, start_ops() + [pending_other], T, p, s, [f], via,
+                                                                     quiet_ops=True)], lazy))
+    # a REAL lock: the file in rollback-journal mode, a reader's shared lock while the round's first COMMIT runs
+    s = hb_stream(0, [1, 1, 2, 2, 1, 1, 3], gap=2, dur=1)
+    for i, w in enumerate(s):
+        then = ("repeat", "repeat", "skip", "recreate")[i % 4]
+        out.append(fault_case(["sqlite"], [fault_phase(0, start_ops() + [pending_other], T, 1, s, [hb_fault(w, "commit", 0, "lock", then)],
+                                                       quiet_ops=True)], journal="delete"))
+    # two faults in one stream; the stream continues in a second phase
+    s = hb_stream(0, [1, 1, 2, 2, 1, 1, 3, 3], gap=2, dur=1)
+    for be in FAULT_BACKENDS:
+        pos = positions(be, True)
+        fs = [hb_fault(s[2], *pos[0], "wrap", "repeat"), hb_fault(s[5], *pos[-1], "auth", "repeat")]
+        out.append(fault_case([be], [fault_phase(0, start_ops(), T, 1, s[:6], fs),
+                                     fault_phase(0, [], T, 1, s[6:], [hb_fault(s[7], *pos[0], "auth", "repeat")])]))
+    # a bucket operation fails half-way or at its COMMIT, the caller goes on: another bucket is created and fed (the bucket
+    # whose deletion failed held the highest row number); the fed bucket's own deletion fails, is repeated, the bucket
+    # created again and fed; the creation fails and is repeated
+    s1 = hb_stream(0, [1, 1, 2, 2, 1])
+    s2 = hb_stream(100, [1, 1, 1, 2, 2], dur=1)
+    for be in FAULT_BACKENDS:
+        for kind, nth in [("execute", 0), ("execute", 1)] + ([("commit", 0)] if be == "sqlite" else []):
+            for mech in ("wrap", "auth"):
+                for via in ("storage", "datastore"):
+                    first = phase(0, start_ops(), T, 1, s1, via)
+                    d = delete(H3)
+                    out.append(fault_case([be], [first, fault_phase(0, [d, create(N4)], N4, 1, s2, [op_fault(d, kind, nth, mech, "next")], via)]))
+                    d = delete(T)
+                    out.append(fault_case([be], [first, fault_phase(0, [d, create(T)], T, 1, s2, [op_fault(d, kind, nth, mech, "repeat")], via)]))
+                    c = create(N4)
+                    out.append(fault_case([be], [first, fault_phase(0, [c], N4, 1, s2, [op_fault(c, kind, nth, mech, "repeat")], via)]))
+    return out
+
+
+def random_fault_case(rng):
+    """a random single-store lifecycle whose phases run without dumps between the rounds, the engine failing in about one
+    round of five and in some of the bucket operations"""
+    be = rng.choice(FAULT_BACKENDS)
+    lazy = be != "sqlite" or rng.random() < 0.7
+    base = random_case(rng)
+    while len(base["stores"]) != 1:
+        base = random_case(rng)
+    pos = positions(be, lazy)
+    phases = []
+    for ph in base["phases"]:
+        faults = []
+        for w in ph["stream"]:
+            if rng.random() < 0.22:
+                kind, nth = rng.choice(pos)
+                faults.append(hb_fault(w, kind, nth, rng.choice(["wrap", "auth"]), rng.choice(["repeat", "repeat", "skip", "recreate"]),
+                                       times=rng.choice([1, 1, 1, 2]), same_object=rng.random() < 0.3))
+        ops = list(ph["ops"])
+        for j, op in enumerate(ops):
+            # a deletion that is followed by the bucket's creation, or a creation: the call is repeated
+            if ((op[0] == 2 and j + 1 < len(ops) and ops[j + 1] == create(op[1]) and rng.random() < 0.3) or (op[0] == 0 and rng.random() < 0.1)) \
+                    and not any(f["on"] == "op" and f["op"] == op for f in faults):
+                kind, nth = rng.choice([("execute", 0), ("execute", 1)] + ([("commit", 0)] if be == "sqlite" else []))
+                faults.append(op_fault(op, kind, nth, rng.choice(["wrap", "auth"]), "repeat"))
+        quiet = False
+        if rng.random() < 0.5 and O in _alive_after(base, ph):
+            ops.append([5, O, [[], BASE + rng.randrange(0, 900) * UNIT, rng.choice([0, UNIT]), rng.randrange(1, 9)]])
+            quiet = all(op[0] == 5 for op in ops)
+        phases.append(fault_phase(0, ops, ph["b"], ph["p"], ph["stream"], faults, ph["via"], quiet_ops=quiet))
+    if be == "sqlite" and rng.random() < 0.15:
+        for ph in phases:
+            for f in ph["faults"]:
+                if f["kind"] == "commit":
+                    f["mech"] = "lock"
+        return fault_case([be], phases, lazy, journal="delete")
+    return fault_case([be], phases, lazy)
+
+
+def _alive_after(case, upto):
+    a = set()
+    for ph in case["phases"]:
+        for op in ph["ops"]:
+            if op[0] == 0:
+                a.add(op[1])
+            elif op[0] == 2:
+                a.discard(op[1])
+        if ph is upto:
+            break
+    return a
+
+
+# ---------------------------------------------------------------------------
+# round 5 (b): buckets whose history did NOT come through the loop from an empty bucket of this storage object - filled by
+# bulk inserts newest first / in shuffled order (ids run against time), or imported by the library's own migration from a
+# legacy peewee database (stores "L" -> "M") - and then continued by the loop.  The statement checked per heartbeat: the
+# event replace_last rewrites is the one the limit-1 read returned (the newest by start), every other event untouched;
+# after the stream: the bucket (by start) == prefill without its newest event ++ heartbeat_reduce([newest] ++ stream); for
+# a legacy bucket that was itself fed by the loop that is heartbeat_reduce of the whole stream.
+
+
+def prefill_events(rng_or_none, t0, labels, order, dur=1):
+    """one event every 4 units from t0 with the labels given, listed in `order`: "desc" (newest first, as the migration
+    inserts them), "asc", or a permutation of the indices"""
+    evs = [[[], BASE + (t0 + 4 * i) * UNIT, dur * UNIT, lab] for i, lab in enumerate(labels)]
+    if order == "desc":
+        return evs[::-1]
+    if order == "asc":
+        return evs
+    return [evs[i] for i in order]
+
+
+def prefilled_boundary_cases():
+    out = []
+
+    def case(phases, only=None):
+        c = {"kind": "lifecycle-prefilled", "stores": ["X"], "univ": UNIV4, "phases": phases, "domain": True}
+        if only:
+            c["only"] = only
+        out.append(c)
+    for p in (1, 5):
+        for via in ("storage", "datastore"):
+            labs = [1, 2, 1, 3, 3]
+            for order in ("desc", [2, 4, 0, 3, 1], [4, 0, 1, 2, 3], "asc"):
+                pre = prefill_events(None, 0, labs, order)
+                pre_o = prefill_events(None, 0, [7, 7, 8], "desc")
+                base = [create(O), create(T), create(H3), [6, O, pre_o], [6, T, pre]]
+                # the first heartbeat merges into the newest prefilled event (same data, inside the pulsetime) ...
+                s = hb_stream(18, [3, 3, 3, 4, 4, 3], gap=2, dur=0)
+                case([phase(0, base, T, p, s, via)])
+                # ... or does not (other data / beyond the pulsetime); the stream goes on in a second phase
+                s = hb_stream(40, [2, 2, 3, 3, 3], gap=2, dur=1)
+                case([phase(0, base, T, p, s[:3], via), phase(0, [[5, O, [[], BASE + 2 * UNIT, 0, 5]]], T, p, s[3:], via)])
+            # filled by single inserts in shuffled order, and the other bucket fed too
+            pre = prefill_events(None, 0, [1, 1, 2, 2], [3, 1, 0, 2])
+            case([phase(0, [create(O), create(T)] + [[5, T, w] for w in pre] + [[6, O, prefill_events(None, 1, [1, 2, 2], "desc")]],
+                        T, p, hb_stream(13, [2, 2, 2, 1, 1], gap=1, dur=1), via),
+                  phase(0, [], O, p, hb_stream(10, [2, 2, 3], gap=1, dur=1), via)])
+    return out
+
+
+def random_prefilled_case(rng):
+    p = rng.choice([0.5, 1, 2.5, 5])
+    via = rng.choice(["storage", "datastore"])
+    n = rng.choice([1, 2, 3, 5, 8])
+    labs = [rng.randrange(1, 4) for _ in range(n)]
+    order = rng.choice(["desc", "desc", "asc", rng.sample(range(n), n)])
+    pre = prefill_events(None, 0, labs, order, dur=rng.choice([0, 1, 2]))
+    ops = [create(O), create(T), create(H3), [5, H3, [[], BASE, 50 * UNIT, 1]]]
+    if rng.random() < 0.5:
+        ops += [[5, T, w] for w in pre]
+    else:
+        cut = rng.randrange(0, n + 1)
+        ops += [[6, T, pre[:cut]], [6, T, pre[cut:]]] if cut not in (0, n) else [[6, T, pre]]
+    ops.append([6, O, prefill_events(None, 0, [rng.randrange(1, 4) for _ in range(rng.randrange(1, 5))], "desc")])
+    t_last = 4 * (n - 1)
+    s1, clock = random_stream(rng, t_last + rng.choice([0, 0, 1, 3, 30]))
+    if s1 and rng.random() < 0.6:
+        s1[0][3] = labs[-1]                       # same data as the newest prefilled event
+    phases = [phase(0, ops, T, p, s1, via)]
+    if rng.random() < 0.5:
+        s2, clock = random_stream(rng, clock + rng.choice([0, 3]))
+        phases.append(phase(0, [[5, H3, [[], BASE + rng.randrange(100, 900) * UNIT, 0, 3]]] if rng.random() < 0.5 else [], T, p, s2, via))
+    return {"kind": "lifecycle-prefilled", "stores": ["X"], "univ": UNIV4, "phases": phases, "domain": True}
+
+
+def migrated_case(p, via, s0, s1, other0=None, more=None):
+    """the stream s0 is fed into bucket T of a legacy peewee store (its default file in a data directory of the case's own),
+    the store is closed; SqliteStorage(testing=True) is constructed in that directory - the library's migration imports
+    the legacy file - and the stream goes on (s1) in the sqlite store"""
+    leg = [phase(0, start_ops(), T, p, s0, via)]
+    if other0:
+        leg.append(phase(0, [], O, p, other0, via))
+    ph = [phase(1, [], T, p, s1, via)] + (more or [])
+    return {"kind": "lifecycle-migrated", "only": ["sqlite"], "stores": ["L", "M"], "univ": UNIV4, "phases": leg + ph, "domain": True}
+
+
+def migrated_boundary_cases():
+    out = []
+    for p in (1, 5):
+        for via in ("storage", "datastore"):
+            s = hb_stream(0, [1, 1, 2, 2, 1, 3, 3, 3, 3, 2, 2], gap=2, dur=1)
+            for cut in (5, 7, 8):           # the first heartbeat after the switch starts a new event / merges into the newest one
+                out.append(migrated_case(p, via, s[:cut], s[cut:]))
+            out.append(migrated_case(p, via, s[:7], s[7:], other0=hb_stream(1, [5, 5, 6], gap=3),
+                                     more=[phase(1, [], O, p, hb_stream(8, [6, 6, 5], gap=3), via),
+                                           phase(1, [delete(T), create(T)], T, p, s[:4], via)]))
+    return out
+
+
+def random_migrated_case(rng):
+    p = rng.choice([0.5, 1, 2.5, 5])
+    via = rng.choice(["storage", "datastore"])
+    s0, clock = random_stream(rng, 0, n=rng.choice([1, 2, 3, 5, 8]))
+    s1, clock = random_stream(rng, clock - 1 + rng.choice([0, 0, 1, 4]))
+    if s0 and s1 and rng.random() < 0.6:
+        s1[0][3] = s0[-1][3]
+    s1 = [w for w in s1 if not s0 or w[1] > s0[-1][1]]
+    # durations on the legacy side: whole half seconds (the peewee store keeps a decimal number of seconds)
+    other0 = random_stream(rng, 0, n=rng.choice([0, 2, 4]))[0] or None
+    more = []
+    if rng.random() < 0.4:
+        s2, clock = random_stream(rng, clock + 2)
+        more.append(phase(1, [[5, H3, [[], BASE + 700 * UNIT, 0, 2]]], T, p, s2, via))
+    return migrated_case(p, via, s0, s1, other0, more)
+
+
+def main(argv):
+    """python -m harness.c07_life <replay.json>: re-run the lifecycle of a C07 replay file ("case_wire", "backend") on the
+    tree VERIF_REPO / PYTHONPATH points at and print what every phase left in the buckets"""
+    import json
+    import tempfile
+    from . import common
+    r = json.load(open(argv[0]))
+    r = r.get("replay", r)
+    common.setup_impl_env()
+    case = r["case_wire"]
+    tmp = tempfile.mkdtemp(prefix="awc07-replay-")
+    try:
+        res = run_lifecycle(r["backend"], case, tmp, 0)
+    finally:
+        shutil.rmtree(tmp, ignore_errors=True)
+    for k, (ph, rec) in enumerate(zip(case["phases"], res["phases"])):
+        print(f"phase {k} on storage object {ph['st']} ({rec['backend']}): {len(ph['ops'])} operations {rec['op_results']}, then "
+              f"{len(ph['stream'])} heartbeats into bucket {ph['b']} (pulsetime {ph['p']})")
+        if "outcomes" in rec:
+            print(f"    rounds: {rec['outcomes']}  exceptions the caller survived: {rec['tries']}")
+        print(f"    branches: {rec['branches']}")
+        print(f"    bucket afterwards (newest first): {rec['final']}")
+        for b, v in zip(case["univ"], rec["last"]):
+            print(f"    bucket {b}: {v}")
+    return 0
+
+
+if __name__ == "__main__":
+    import sys
+    sys.exit(main(sys.argv[1:]))
